@@ -8,6 +8,7 @@ import (
 	"reflect"
 	"strconv"
 	"strings"
+	"unicode/utf8"
 )
 
 var imports []string
@@ -212,7 +213,7 @@ func (s *JavaFullListener) EnterInterfaceMethodDeclaration(ctx *parser.Interface
 		StartLine:         bodyDecl.Identifier().GetStart().GetLine(),
 		StartLinePosition: bodyDecl.Identifier().GetStart().GetColumn(),
 		StopLine:          ctx.GetStop().GetLine(),
-		StopLinePosition:  bodyDecl.Identifier().GetStart().GetColumn() + len(name),
+		StopLinePosition:  bodyDecl.Identifier().GetStart().GetColumn() + utf8.RuneCountInString(name),
 	}
 
 	method := &core_domain.CodeFunction{Name: name, ReturnType: typeType, Position: position}
@@ -361,7 +362,7 @@ func (s *JavaFullListener) EnterMethodDeclaration(ctx *parser.MethodDeclarationC
 		StartLine:         ctx.GetStart().GetLine(),
 		StartLinePosition: ctx.Identifier().GetStart().GetColumn(), // different
 		StopLine:          ctx.GetStop().GetLine(),
-		StopLinePosition:  ctx.Identifier().GetStart().GetColumn() + len(name),
+		StopLinePosition:  ctx.Identifier().GetStart().GetColumn() + utf8.RuneCountInString(name),
 	}
 
 	method := &core_domain.CodeFunction{
